@@ -56,7 +56,7 @@ def assets(chk, wd, seed, quick):
         chk.violation(f"MC_Asset: {r_mc.error}")
     chk.add_spec_run("MC_Asset.cfg", r_mc, "files of 0..4 bytes, any position, read_exact of 0..5 bytes over every short-read pattern and both end-of-file conventions: contract, progress, termination")
     trace = os.path.join(wd, "assets.ndjson")
-    harness(["assets", "--out", trace, "--seed", seed, "--files", 10 if quick else 80, "--ops", 60])
+    harness(["assets", "--out", trace, "--seed", seed, "--files", 10 if quick else 80, "--ops", 60, "--big", 2 if quick else 4, "--huge", 0 if quick else 1])
     r = tlc("AssetTrace", "AssetTrace.cfg", PID, "assets", trace=trace, timeout=3000)
     summ = r.tuples("SUMMARY")
     if not r.ok or not summ:
@@ -144,7 +144,7 @@ def run(tier, seed):
                        "Max mode, breakpoints every k instructions with resume (k random) and after every instruction (so that a stop coincides with every other per-instruction event), FrameCount(n) with breakpoint stops (twice), a different way of driving for every call (twice), sound off, AY off, both switched at run time every four frames, audio never drained, tape asset "
                        "with 1-byte reads, 7-byte reads with Ok(0) at EOF, a real file, gzip; digest = registers + clock + all RAM + screen and border "
                        "buffers + border colour + paging; audio stream compared where the drain policy is the same. Asset clause: "
-                       f"{10 if quick else 80} files of 0..64 bytes x 6 asset implementations (BufferCursor, FileAsset, GzipAsset, DynamicAsset around each) "
+                       f"{10 if quick else 80} files of 0..64 bytes (and {2 if quick else 4} of 64 KiB..1.2 MB: longer than any snapshot, like a long tape image) x 6 asset implementations (BufferCursor, FileAsset, GzipAsset, DynamicAsset around each) "
                        f"x 60 random read / read_exact / seek calls ({n_assets} calls) judged by Asset.tla")
     chk.assumptions += ["frames are counted by Completed / Timeout returns; host inputs are applied at frame numbers that are multiples of 4, where every driving hands control back"]
     return chk.finish()
